@@ -288,6 +288,24 @@ def layout_job(job):
 
 # --------------------------------------------------------------------------- (C) reuse
 
+def _float_control():
+    import oqupy
+    c = oqupy.Control(2)
+    c.add_single(0.1, np.kron(SX, SX.conj()))
+    c.add_single(0.2, np.kron(SZ, SZ.conj()), post=True)
+    return c
+
+
+def _rank3_pt(q, n=3):
+    """hand-built dephasing process tensor with rank-3 tensors (diagonal in the system index)"""
+    from oqupy.process_tensor import SimpleProcessTensor
+    pt = SimpleProcessTensor(2, dt=0.1)
+    for k in range(n):
+        pt.set_mpo_tensor(k, np.array([1.0, q, q, 1.0], dtype=complex).reshape(1, 1, 4))
+    pt.compute_caps()
+    return pt
+
+
 def shared_objects():
     import oqupy
     corr = mk_corr(1)
@@ -303,6 +321,8 @@ def shared_objects():
             "params_nomem": oqupy.TempoParameters(dt=0.1, epsrel=1e-7, dkmax=None),
             "mfsys": oqupy.MeanFieldSystem([oqupy.TimeDependentSystemWithField(lambda t, a: 0.5 * SX + (0.2 * np.cos(t) + 0.1 * a.real) * SZ)],
                                            field_eom=lambda t, st, a: -0.5j * a - 0.1j * np.trace(st[0] @ SX) + 0.05 * t),
+            "fctrl": _float_control(),
+            "pt3": _rank3_pt(0.9),
             "tdsys": oqupy.TimeDependentSystem(lambda t: 0.5 * SX + 0.3 * np.cos(2.0 * t) * SZ),
             "rho": RHO.copy(), "psys": oqupy.ParameterizedSystem(lambda x, y: x * SX + y * SZ),
             "pars": np.array([[0.3, 0.1]] * 6)}
@@ -332,6 +352,18 @@ def use(kind, o):
         r = oqupy.state_gradient(system=o["psys"], initial_state=o["rho"], target_derivative=np.array([[0.2, 0.1], [0.1, 0.8]], dtype=complex),
                                  process_tensors=[o["pt"]], parameters=o["pars"], progress_type="silent")
         return np.array(r["gradient"])
+    if kind in ("ctrl-dt1", "ctrl-dt2"):
+        # one Control object with float time stamps, computations on different time grids
+        dt_ = 0.1 if kind == "ctrl-dt1" else 0.05
+        return np.array(oqupy.compute_dynamics(o["system"], initial_state=o["rho"], dt=dt_, num_steps=6, control=o["fctrl"],
+                                               progress_type="silent").states)
+    if kind in ("pt3-use", "pt3-rewrite"):
+        # a hand-built process tensor: used, then one step overwritten (same rank), caps recomputed, used again
+        if kind == "pt3-rewrite":
+            o["pt3"].set_mpo_tensor(1, np.array([1.0, 0.5, 0.5, 1.0], dtype=complex).reshape(1, 1, 4))
+            o["pt3"].compute_caps()
+        st = np.array(oqupy.compute_dynamics(o["system"], initial_state=o["rho"], process_tensor=o["pt3"], progress_type="silent").states)
+        return np.concatenate([st.reshape(-1), np.array(o["pt3"].get_mpo_tensor(1)).reshape(-1)])
     if kind in ("mf-dt1", "mf-dt2", "mf-cdwf"):
         # one mean-field system object: MeanFieldTempo with two different time steps, and the process-tensor route
         if kind == "mf-cdwf":
@@ -411,7 +443,10 @@ def reuse_job(case):
         psnap = {k: public_state(o[k]) for k in PARAM_OBJECTS}
         psnap["correlations"] = public_state(o["bath"].correlations)
         for idx, h in enumerate(case["hist"]):
-            fresh = use(h["arg"], shared_objects())
+            fo = shared_objects()
+            if h["arg"] == "pt3-use" and any(x["arg"] == "pt3-rewrite" for x in case["hist"][:idx]):
+                use("pt3-rewrite", fo)            # equal objects: the fresh tensor holds the rewritten content too
+            fresh = use(h["arg"], fo)
             got = use(h["arg"], o)
             # PT-TEMPO results are reproducible only up to the SVD gauge: compare at 1e-9
             if h["arg"] in ("gradient", "gradient-inplace"):
@@ -723,6 +758,14 @@ def returned_job(which):
             scribble(pt.get_mpo_tensor(1, transformed=False))
             scribble(pt.get_cap_tensor(1))
             after = run()
+        elif which == "GibbsTempo.get_state":
+            g = oqupy.GibbsTempo(oqupy.System(0.4 * sx + 0.2 * sz), oqupy.Bath(np.diag([0.5, -0.5]), oqupy.PowerLawSD(
+                alpha=0.1, zeta=1.0, cutoff=2.0, cutoff_type="exponential", temperature=0.7)), oqupy.GibbsParameters(4, 1e-9))
+            g.compute(progress_type="silent")
+            before = np.array(g.get_state())
+            scribble(g.get_state())
+            g.compute(progress_type="silent")
+            after = np.array(g.get_state())
         elif which == "Dynamics.states":
             d_ = oqupy.compute_dynamics(oqupy.System(0.5 * sx), initial_state=rho, dt=0.1, num_steps=3, progress_type="silent")
             before = np.array(d_.states)
@@ -771,7 +814,7 @@ def returned_job(which):
 
 RETURNED = ["System.liouvillian", "System.hamiltonian", "System.gammas", "System.lindblad_operators", "Bath.coupling_operator",
             "Bath.unitary_transform", "Bath.north_degeneracy_map", "Bath.west_degeneracy_map",
-            "Dynamics.states", "PtTebd(parameters)", "Tempo(parameters)"]
+            "Dynamics.states", "GibbsTempo.get_state", "PtTebd(parameters)", "Tempo(parameters)"]
 # not in the list: SimpleProcessTensor.get_mpo_tensor / get_cap_tensor hand out the stored arrays themselves.  A process tensor
 # is a mutable container (set_mpo_tensor), writing through the getter's array is another way of changing its content; C20 does
 # not forbid it (recorded in DESIGN.md 12.7 as an observation).
@@ -875,7 +918,7 @@ def run(ctx):
         for x in mm:
             ctx.violation("C20:handed-out:%s:%s" % (which, x["what"]), str(x), {"returned": which})
     # (C) reuse of shared objects
-    kinds = '{"tempo", "pttempo", "dynamics", "correlations", "gradient", "gradient-inplace", "td-start0", "td-start1", "mf-dt1", "mf-dt2", "mf-cdwf", "gibbs", "tebd", "bathcorr-early", "bathcorr-late", "bathocc", "pttempo-nomem-short", "tempo-nomem-long"}'
+    kinds = '{"tempo", "pttempo", "dynamics", "correlations", "gradient", "gradient-inplace", "td-start0", "td-start1", "mf-dt1", "mf-dt2", "mf-cdwf", "gibbs", "ctrl-dt1", "ctrl-dt2", "pt3-use", "pt3-rewrite", "tebd", "bathcorr-early", "bathcorr-late", "bathocc", "pttempo-nomem-short", "tempo-nomem-long"}'
     ru = ctx.tlc("ObjectGraph", CFG_USE, label="sequences of computations re-using shared objects", workers=2,
                  constants=dict(consts, Devs="{}", MaxOps="2" if quick else "3", UseKinds=kinds))
     for c, mm in zip(ru.cases, core.pmap(reuse_job, ru.cases)):
